@@ -551,6 +551,7 @@ def main():
     undecided = []
     known_lines = []
     n_obl = n_dis = 0
+    b_obl = b_dis = 0
     samples = []
     functions = set()
     replaced = set()
@@ -593,7 +594,10 @@ def main():
             # not counted in obligations
             unit_summ.append(dict(unit=r['unit'], role='known-finding variant ' + kf, failed=len(fails), wall_s=r['wall_s']))
             continue
-        n_obl += u_obl; n_dis += u_dis
+        if u.get('bounded') and meta.get('level', 'proof') == 'proof':
+            b_obl += u_obl; b_dis += u_dis      # bounded stand-ins are reported, never counted among the proof obligations
+        else:
+            n_obl += u_obl; n_dis += u_dis
         for o in r['obligations']:
             if o.get('expect_fail'): continue
             f = (o['loc'].get('file') or '')
@@ -673,6 +677,8 @@ def main():
                             obligation_kinds=kinds,
                             units=unit_summ,
                             bounded_units=bounded,
+                            bounded_obligations=b_obl, bounded_discharged=b_dis,
+                            counting_rule='level proof: obligations/discharged count contract units only; units with a stated bound are listed in bounded_units and counted in bounded_obligations/bounded_discharged; level other: every unit is counted and the bounds are stated per unit',
                             solver_wall_s=round(sum(s.get('wall_s', 0) for s in unit_summ), 1),
                             undecided=undecided,
                             waived_checks=waived,
